@@ -3,4 +3,5 @@
   (`C14_text.lean`: `genText` is the rendering of the emitted lines, for both layouts).
 -/
 import Pyab.Properties.C14
+import Pyab.Properties.C05_float
 import Pyab.Properties.C14_text
